@@ -267,9 +267,11 @@ func (p *program) loadProgram() error {
 		return err
 	}
 
-	sizes := types.SizesFor("gc", runtime.GOARCH)
+	// The target architecture (GOARCH), not the one this binary runs on:
+	// it is what the loader type-checks for and what the analyzer front-end uses.
+	sizes := types.SizesFor("gc", build.Default.GOARCH)
 	if sizes == nil {
-		return fmt.Errorf("can't find sizes info for %s", runtime.GOARCH)
+		return fmt.Errorf("can't find sizes info for %s", build.Default.GOARCH)
 	}
 
 	p.fset = token.NewFileSet()
